@@ -34,7 +34,7 @@ pub fn draw_sched(rng: &mut Rng, rows: usize) -> SchedSpec {
         12 => SchedKind::NewestFirst,
         _ => SchedKind::StallOne { victim: rng.below(rows.clamp(1, 16)) as u32 },
     };
-    SchedSpec { kind, seed, hold: crate::sched::hold_for_seed(seed) }
+    SchedSpec { kind, seed, hold: crate::sched::hold_for_seed(seed), callers: crate::sched::callers_for_seed(seed) }
 }
 
 /// CPU counts for one input with `rows` rows.
@@ -128,6 +128,28 @@ pub fn exec_top(op: &TOp, conf: &Conf, calls: usize) -> ExecReport<Vec<OpResult>
         }
     };
     let op2 = op.clone();
+    // concurrent callers: only where one call is cheap (they multiply the work and the schedule length)
+    let callers = if op.rows() <= 100 { usize::from(conf.sched.callers) } else { 0 };
+    if callers >= 2 {
+        // `callers` tasks call the operation on the same borrowed operands at the same time (the operands are
+        // `Sync`: the safe API allows it); every caller's result is judged like a single caller's
+        let mut rep = run_exec(conf, move || {
+            let handles: Vec<_> = (1..callers)
+                .map(|_| {
+                    let op3 = op2.clone();
+                    let prep3 = Arc::clone(&prep);
+                    shuttle::thread::spawn(move || op3.execute(&prep3))
+                })
+                .collect();
+            let mut out = vec![op2.execute(&prep)];
+            for h in handles {
+                out.push(h.join().expect("a caller task panicked"));
+            }
+            out
+        });
+        rep.log.callers = callers as u8;
+        return rep;
+    }
     run_exec(conf, move || (0..calls).map(|_| op2.execute(&prep)).collect::<Vec<_>>())
 }
 
